@@ -265,6 +265,40 @@ def check_delete_enumerates_versions(ck, R):
           "every version object under the key's versions directory is unlinked" if ok else
           "_delete_all_versions_for_key does not enumerate the versions directory on every path (it deletes what the link resolves to, at most): "
           "superseded versions of a key written twice stay behind, the function directory is never pruned and a forgotten function stays listed", fa.where())
+    # ... and the enumeration is of EVERY version directory: `output` never removes the previous version of a key, the link
+    # names the newest one only, so which version objects go must not be narrowed to one directory (a value in the place of the
+    # wildcard, on any branch) nor filtered by what the link says
+    cls = ck.repo.cls(FSDS)
+    scans = [VersionScan(ck, fa, lp, vlits, cls) for lp in loops]
+    top = []
+    for sc in scans:
+        outer = [o for o in scans if o is not sc and fa.inside(sc.lp, o.lp)]
+        if outer and (sc.complete or sc.why == "sub-scan"):
+            continue        # a scan of one version directory that an enclosing scan found
+        top.append(sc)
+        why = sc.why if sc.why != "sub-scan" else "`%s` scans one directory, not the key's versions directory" % A.short(sc.lp.iter, 50)
+        if sc.complete:
+            # no test inside the loop decides by the link's content which of the enumerated objects is unlinked
+            for t in [n for n in fa.cfg.nodes if n.kind == "test" and n.ast is not None and fa.inside(n.ast, sc.lp) and n.id in fa.cfg.reachable_nodes()]:
+                if set(fa.df.deps(t.ast, t.id)) & set(_LINK_CONTENT):
+                    why = "inside the scan `%s` decides by what the link says which objects are unlinked" % A.short(t.ast, 50)
+        okc = sc.complete and not why
+        ck.ob(R, fa.key(sc.lp, "every-version-directory"), okc,
+              "the scan visits every version directory of the key" if okc else
+              "the delete scan does not visit every version directory of the key (%s): a key written twice has two version objects and the link names "
+              "only the newest, so the superseded one stays behind, the function's directory is never pruned and a function with no call left "
+              "stays listed" % (why or "not a complete enumeration"), fa.where(sc.lp))
+    # ... and one of the scans that every path passes selects the object itself (file name = the key's base name, no further
+    # literal), not only what is stored beside it
+    if ok and top and all(sc.complete for sc in top):
+        def on_every_path(sc):
+            return fa.cfg.exit not in fa.cfg.reach([fa.cfg.entry], removed=fa.nodes(sc.lp), edge_ok=skip)
+        def selects_object(sc):
+            return sc.names is None or (len(sc.names) == 1 and sc.names[0][0] == "expr")
+        oko = any(on_every_path(sc) and selects_object(sc) for sc in top)
+        ck.ob(R, fa.key(None, "objects-enumerated"), oko, "the version objects themselves are among what the scans select" if oko else
+              "the delete scans select files stored beside the version objects only (every pattern carries a literal after the key's base name): "
+              "the objects of a deleted key stay behind", fa.where())
     dv = FA(ck, FSDS + ".delete_all_versions")
     # what removes the link, by what it does: an unlink of the path the link builder returns, here or in a method of the
     # data source that does so on every path (whatever that method is called and however the helpers are merged or split)
@@ -322,6 +356,195 @@ def _version_scan_loops(fa: FA, vlits):
             if any(A.call_attr(c) in ("unlink", "remove") for c in A.calls_in(lp)):
                 loops.append(lp)
     return loops
+
+
+# what only the link file can say: the link names ONE version (the newest) of the key
+_LINK_CONTENT = ("call:_read_non_versioned_link", "call:input_nonversioned", "call:read", "call:read_text", "call:readline", "call:readlines", "call:readlink")
+_SEQ_WRAPPERS = ("list", "sorted", "tuple", "iter", "set", "reversed")
+
+
+def _alternatives(fa: FA, e, at, cap=24):
+    """Every expression `e` (evaluated at CFG node `at`) may stand for: a local with ONE reaching plain assignment is
+    replaced by its value (as FA.expand does), a local with SEVERAL (a value chosen on different branches) gives one
+    alternative per assignment, a conditional expression one per arm.  -> list of expressions (at most `cap`)."""
+    import copy
+
+    def replace(tree, site, new):
+        if tree is site:
+            return copy.deepcopy(new)
+        idx = [i for i, y in enumerate(ast.walk(tree)) if y is site][0]
+        t2 = copy.deepcopy(tree)
+        site2 = list(ast.walk(t2))[idx]
+        new2 = copy.deepcopy(new)
+
+        class T(ast.NodeTransformer):
+            def visit(self, n_):
+                return new2 if n_ is site2 else self.generic_visit(n_)
+
+        return T().visit(t2)
+
+    def alts(tree, at_, depth, stack):
+        bound = set()
+        for x in ast.walk(tree):
+            if isinstance(x, ast.comprehension):
+                bound |= {n.id for n in ast.walk(x.target) if isinstance(n, ast.Name)}
+            if isinstance(x, ast.Lambda):
+                bound |= {a.arg for a in x.args.args + x.args.kwonlyargs + x.args.posonlyargs}
+        site = vals = None
+        if depth > 0:
+            for x in ast.walk(tree):
+                if getattr(x, "_alt_done", False):
+                    continue
+                if isinstance(x, ast.IfExp):
+                    site, vals = x, [(x.body, at_, None), (x.orelse, at_, None)]
+                    break
+                if isinstance(x, ast.Name) and isinstance(x.ctx, ast.Load) and x.id not in bound:
+                    ds = [d for d in fa.df.reaching(at_, x.id)]
+                    if ds and all(d.kind == "assign" and d.value is not None and d.node >= 0 and (d.node, d.name) not in stack for d in ds):
+                        site, vals = x, [(d.value, d.node, (d.node, d.name)) for d in ds]
+                        break
+                    x._alt_done = True
+        if site is None:
+            return [tree]
+        out = []
+        for (v, v_at, key) in vals:
+            for s_ in alts(copy.deepcopy(v), v_at, depth - 1, stack + ((key,) if key else ())):
+                if v_at != at_ or key is not None:
+                    for y in ast.walk(s_):
+                        y._alt_done = True     # evaluated where it was assigned: final
+                out += alts(replace(tree, site, s_), at_, depth - 1, stack)
+                if len(out) >= cap:
+                    return out[:cap]
+        return out
+
+    return alts(copy.deepcopy(e), at, 16, ())
+
+
+def _pattern_parts(p):
+    """flat parts of a glob pattern / file name, `<fmt>.format(..)` with a built (non-literal) format string included"""
+    parts = A.str_parts(p)
+    if parts is None and isinstance(p, ast.Call) and A.call_attr(p) == "format" and isinstance(p.func, ast.Attribute):
+        head = A.str_parts(p.func.value)
+        if head is not None:
+            # the fields of the literal pieces are filled from the arguments in order
+            out, k = [], 0
+            for (kind, v) in head:
+                if kind != "lit":
+                    out.append((kind, v))
+                    continue
+                pieces = v.split("{}")
+                for i, pc in enumerate(pieces):
+                    if pc:
+                        out.append(("lit", pc))
+                    if i < len(pieces) - 1:
+                        if k >= len(p.args):
+                            return None
+                        sub = A.str_parts(p.args[k])
+                        out += sub if sub is not None else [("expr", p.args[k])]
+                        k += 1
+            parts = A._merge(out)
+    return parts
+
+
+class VersionScan:
+    """How a loop of the deleter enumerates the version objects of a key.
+
+    `complete`  every version directory of the key's versions directory is visited: `<versions dir>.glob('*/...')`,
+                `.iterdir()`, `os.listdir / os.scandir(<versions dir>)`, `glob.glob(<versions dir>/*/...)`, through
+                list()/sorted() and comprehensions that filter on nothing the link says
+    `why`       (when not complete) what narrows it
+    `names`     for a glob: the parts of the pattern after the version component (what file names it selects)
+    `nested`    the loop runs over something found by an enclosing complete scan (a sub-scan of one version directory)"""
+
+    def __init__(self, ck, fa: FA, lp, vlits, cls):
+        self.lp, self.complete, self.why, self.names, self.nested = lp, False, "", None, False
+        ids = fa.nodes(lp)
+        if not ids:
+            self.why = "unreachable"
+            return
+        verdicts = []
+        for alt in _alternatives(fa, lp.iter, ids[0]):
+            verdicts.append(self._classify(ck, fa, cls, alt, vlits, ids[0]))
+        bad = [v for v in verdicts if v[0] is not True]
+        self.complete = bool(verdicts) and not bad
+        self.why = bad[0][1] if bad else ""
+        nm = [v[2] for v in verdicts if v[2] is not None]
+        self.names = nm[0] if nm and len(nm) == len(verdicts) else None
+
+    def _is_vdir(self, ck, cls, e, vlits) -> bool:
+        e = _strip_path_wrappers(e)
+        x = _strip_path_wrappers(_inline_own_builders(ck, cls, e))
+        last = None
+        if isinstance(x, ast.Call) and A.call_attr(x) in ("joinpath", "join") and x.args:
+            last = x.args[-1]
+        elif isinstance(x, ast.BinOp) and isinstance(x.op, ast.Div):
+            last = x.right
+        return isinstance(last, ast.Constant) and last.value in vlits
+
+    def _classify(self, ck, fa, cls, e, vlits, at):
+        """-> (True | False, why, name parts | None)"""
+        while isinstance(e, ast.Call) and isinstance(e.func, ast.Name) and e.func.id in _SEQ_WRAPPERS and e.args:
+            e = e.args[0]
+        if isinstance(e, (ast.ListComp, ast.GeneratorExp, ast.SetComp)):
+            if len(e.generators) != 1:
+                return (False, "`%s` is not a plain enumeration" % A.short(e, 50), None)
+            g = e.generators[0]
+            for c_ in g.ifs:
+                try:
+                    d = fa.df.deps(c_, at, None, {n.id: g.iter for n in ast.walk(g.target) if isinstance(n, ast.Name)})
+                except Exception:  # noqa
+                    d = set()
+                if set(d) & set(_LINK_CONTENT):
+                    return (False, "the scan keeps only entries chosen by what the link says (`%s`)" % A.short(c_, 50), None)
+            return self._classify(ck, fa, cls, g.iter, vlits, at)
+        if not isinstance(e, ast.Call):
+            return (False, "`%s` is not an enumeration of the versions directory" % A.short(e, 50), None)
+        nm, d = A.call_attr(e), A.call_dotted(e) or ""
+        if nm in ("iterdir",) and isinstance(e.func, ast.Attribute) and self._is_vdir(ck, cls, e.func.value, vlits):
+            return (True, "", None)
+        if d in ("os.listdir", "os.scandir") and e.args and self._is_vdir(ck, cls, e.args[0], vlits):
+            return (True, "", None)
+        if nm in ("glob", "rglob", "iglob") and e.args:
+            if isinstance(e.func, ast.Attribute) and self._is_vdir(ck, cls, e.func.value, vlits):
+                if nm == "rglob":
+                    return (True, "", _pattern_parts(e.args[0]))
+                return self._wild(_pattern_parts(e.args[0]), e.args[0])
+            # glob.glob(<versions dir>/*/...): the module function, under whatever name it was imported
+            p = e.args[0]
+            if isinstance(p, ast.Call) and A.call_attr(p) == "join" and "path" in (A.call_dotted(p) or ""):
+                for i, a in enumerate(p.args):
+                    if self._is_vdir(ck, cls, a, vlits):
+                        rest = p.args[i + 1:]
+                        parts = []
+                        for j, r_ in enumerate(rest):
+                            sp = A.str_parts(r_)
+                            parts += (sp if sp is not None else [("expr", r_)]) + ([("lit", "/")] if j < len(rest) - 1 else [])
+                        return self._wild(A._merge(parts), p)
+            parts = _pattern_parts(p)
+            if parts:
+                for i, (k, v) in enumerate(parts):
+                    if k == "expr" and self._is_vdir(ck, cls, v, vlits) and i + 1 < len(parts) and parts[i + 1][0] == "lit" and parts[i + 1][1][:1] in ("/", "\\"):
+                        rest = [("lit", parts[i + 1][1][1:])] + parts[i + 2:]
+                        return self._wild(A._merge(rest), p)
+            if isinstance(e.func, ast.Attribute) and not isinstance(e.func.value, ast.Call) and (A.call_dotted(e) or "").split(".")[0] not in ("glob", "_glob"):
+                return (None, "sub-scan", None)
+            return (False, "`%s` is not an enumeration of the versions directory" % A.short(e, 50), None)
+        return (False, "`%s` is not an enumeration of the versions directory" % A.short(e, 50), None)
+
+    @staticmethod
+    def _wild(parts, node):
+        """the first component of the pattern (the version) is the wildcard"""
+        if not parts:
+            return (False, "the scan pattern `%s` cannot be read" % A.short(node, 50), None)
+        (k, v) = parts[0]
+        if k != "lit":
+            return (False, "the version component of the scan pattern is `%s`, a value, not the wildcard" % A.short(v, 40), None)
+        comp = v.replace("\\", "/").split("/")[0]
+        if comp not in ("*", "**"):
+            return (False, "the version component of the scan pattern is %r, not the wildcard" % comp, None)
+        rest = v.replace("\\", "/").split("/", 1)[1] if "/" in v.replace("\\", "/") else ""
+        names = ([("lit", rest)] if rest else []) + list(parts[1:])
+        return (True, "", names)
 
 
 def _mentions_table(fa: FA, e, tb, at=None) -> bool:
